@@ -18,3 +18,17 @@ pub assume_specification<T, F: FnOnce() -> T>[ Option::<T>::get_or_insert_with ]
         *old(o) is Some ==> *r == (*old(o))->Some_0,
         *old(o) is None ==> f.ensures((), *r),
         *final(o) == Some(*final(r));
+pub assume_specification<T, F: FnOnce(T) -> bool>[ Option::<T>::is_some_and ](o: Option<T>, f: F) -> (r: bool)
+    requires o is Some ==> f.requires((o->Some_0,)),
+    ensures o is None ==> !r, o is Some ==> f.ensures((o->Some_0,), r);
+pub assume_specification<T>[ Option::<T>::or ](o: Option<T>, b: Option<T>) -> (r: Option<T>)
+    ensures r == (if o is Some { o } else { b });
+pub assume_specification<T>[ Option::<T>::xor ](o: Option<T>, b: Option<T>) -> (r: Option<T>)
+    ensures r == (if o is Some && b is None { o } else if o is None && b is Some { b } else { None::<T> });
+pub assume_specification<T, E, U, F: FnOnce(T) -> Result<U, E>>[ Result::<T, E>::and_then ](res: Result<T, E>, f: F) -> (r: Result<U, E>)
+    requires res is Ok ==> f.requires((res->Ok_0,)),
+    ensures res is Err ==> r is Err && r->Err_0 == res->Err_0, res is Ok ==> f.ensures((res->Ok_0,), r);
+pub assume_specification<T, E>[ Result::<T, E>::unwrap_or ](res: Result<T, E>, default: T) -> (r: T)
+    ensures r == (if res is Ok { res->Ok_0 } else { default });
+pub assume_specification<T>[ bool::then_some ](b: bool, t: T) -> (r: Option<T>)
+    ensures r == (if b { Some(t) } else { None::<T> });
